@@ -286,3 +286,53 @@ def orphan_branch_stopped(situation: int, parent_fails: bool):
         after = [u for u in after if u.action.value != "START"]
     h.check(not after, "an update of the orphaned branch reached the pipeline after the parent's completion record")
     h.end()
+
+
+# ------------------------------------------------------------------------------------------------ operations known only from the history (earlier invocations)
+@h.lemma(timeout=400, funcs=FUNCS, reach=("end", "orphan", "history_only"),
+         bounds="forest a > b > c plus d under a; a solver-chosen subset of the operations is known only from the invocation's history (state.operations with parent "
+                "links, no update handed over in this invocation), the others were started in this invocation; then a or b completes and any operation sends any update")
+def orphan_gate_history(hist_a: bool, hist_b: bool, hist_c: bool, done_b: bool, fail: bool, t: int, a: int):
+    """
+    pre: 0 <= t < 4 and 0 <= a < 4
+    post: True
+    """
+    from aws_durable_execution_sdk_python.lambda_service import Operation, OperationStatus
+
+    parents = [-1, 0, 1, 0]
+    is_ctx = [True, True, False, False]
+    in_hist = [hist_a, hist_b, hist_c, False]
+    ops = {}
+    for i in range(4):
+        if in_hist[i]:
+            ops[IDS[i]] = Operation(IDS[i], OperationType.CONTEXT if is_ctx[i] else OperationType.STEP, OperationStatus.STARTED,
+                                    parent_id=IDS[parents[i]] if parents[i] >= 0 else None)
+    st = ExecutionState("arn", "t0", ops, None)
+    for i in range(4):
+        if not in_hist[i]:
+            if parents[i] >= 0 and not in_hist[parents[i]] and False:
+                pass
+            st._orig_create_checkpoint(U(IDS[i], IDS[parents[i]] if parents[i] >= 0 else None,
+                                         OperationType.CONTEXT if is_ctx[i] else OperationType.STEP, A.START), is_sync=False)
+    if any(in_hist):
+        h.reach("history_only")
+    c = 1 if done_b else 0
+    st._orig_create_checkpoint(U(IDS[c], IDS[parents[c]] if parents[c] >= 0 else None, OperationType.CONTEXT, A.FAIL if fail else A.SUCCEED), is_sync=False)
+    act = [A.START, A.SUCCEED, A.FAIL, A.RETRY][a]
+    if (is_ctx[t] and act is A.RETRY) or t == c:
+        return
+    before = len(st._checkpoint_queue.items)
+    under_done = c in ancestors(t, parents)
+    try:
+        st._orig_create_checkpoint(U(IDS[t], IDS[parents[t]] if parents[t] >= 0 else None,
+                                     OperationType.CONTEXT if is_ctx[t] else OperationType.STEP, act), is_sync=False)
+        accepted = True
+    except OrphanedChildException:
+        accepted = False
+    enq = len(st._checkpoint_queue.items) - before
+    if under_done:
+        h.reach("orphan")
+        h.check(not accepted and enq == 0, "an update of a descendant of a completed context reached the pipeline (the descendant was started in an earlier invocation)")
+    else:
+        h.check(accepted and enq == 1, "an update outside any completed context was rejected or lost")
+    h.end()
